@@ -46,8 +46,9 @@ def main():
         rep.coverage.update({"exhaustive": False, "traces_validated_against_impl": 0})
     # tier 2: real stack on loopback
     try:
-        files = {"zz_verif_" + os.path.basename(f): f for f in glob.glob(os.path.join(vlib.VERIF, "harness", "serverlib", "*_test.go"))}
-        eb = enumlib.build("serverlib-enum", "server/lib", files)
+        # only the file that drives the exported listener (the C18 files of that directory touch unexported state)
+        files = {"zz_verif_c05t2_test.go": os.path.join(vlib.VERIF, "harness", "serverlib", "c05t2_test.go")}
+        eb = enumlib.build("serverlib-t2", "server/lib", files)
         res = enumlib.run(eb, "TestVerifEnumC05T2", tier, 150 if tier == "quick" else 600)
         for f in res["findings"]:
             rep.finding(f["sig"], f["msg"], {"input": f["input"], "kind": "real-stack scenario (loopback WebSocket carriers, kcp-go, smux)", "test": "TestVerifEnumC05T2"})
